@@ -14,6 +14,8 @@ use vstd::string::*;
 use core::result::Result;
 use std::mem::replace;
 use crate::deio_::PayloadEvent;
+use std::collections::VecDeque;
+use core::num::NonZeroUsize;
 
 /// hand transcription of the variants of src/errors.rs serialize::DeError that these functions construct
 pub enum DeError {
@@ -22,6 +24,7 @@ pub enum DeError {
     UnexpectedStart(Vec<u8>),
     UnexpectedEof,
     KeyNotRead,
+    TooManyEvents(core::num::NonZeroUsize),
     Other,
 }
 impl vstd::std_specs::convert::FromSpecImpl<Error> for DeError {
@@ -107,6 +110,10 @@ impl<'a> Deref for Text<'a> {
 }
 //@end
 spec fn de_wf<'a>(e: DeEvent<'a>) -> bool { e matches DeEvent::Start(s) ==> s.name_len <= s.buf@.len() }
+/// no Text event is immediately followed by another one
+pub open spec fn no_adjacent_text<'a>(s: Seq<DeEvent<'a>>) -> bool {
+    forall|i: int| #![trigger s[i]] 0 <= i && i + 1 < s.len() ==> !(s[i] is Text && s[i + 1] is Text)
+}
 pub open spec fn pe_wf<'a>(e: PayloadEvent<'a>) -> bool { e matches PayloadEvent::Start(s) ==> s.name_len <= s.buf@.len() }
 //@extract de::XmlRead | src/de/mod.rs :: trait XmlRead | serves=C07 features=serialize
  trait XmlRead<'i> {
@@ -389,15 +396,44 @@ where
     R: XmlRead<'de>,
     E: EntityResolver,
 {
+//@if overlapped-lists
+    /// THE REPLAY QUEUES (feature `overlapped-lists`). Events still to be delivered: `read` (replayed or looked at), then the
+    /// reader's. "Two consequent Text events would be merged into one" becomes a fact about that stream: no Text in `read` is
+    /// followed by a Text, and if `read` ends with a Text the reader's look-ahead does not continue it
+    pub closed spec fn rinv(&self) -> bool {
+        &&& self.reader.wf()
+        &&& forall|i: int| 0 <= i < self.read@.len() ==> de_wf(#[trigger] self.read@[i])
+        &&& no_adjacent_text(self.read@)
+        &&& self.read@.len() > 0 && self.read@.last() is Text ==> self.reader.text_done()
+    }
+    /// the events held for replay: no adjacent Texts either
+    pub closed spec fn winv0(&self) -> bool {
+        &&& forall|i: int| 0 <= i < self.write@.len() ==> de_wf(#[trigger] self.write@[i])
+        &&& no_adjacent_text(self.write@)
+    }
+    /// between two skips the held events end with the End (or Eof) of a skipped element, not with a Text: whatever is put in
+    /// front of `read` by a replay joins it without making two Texts adjacent
+    pub closed spec fn inv(&self) -> bool {
+        &&& self.rinv() && self.winv0()
+        &&& self.write@.len() > 0 ==> !(self.write@.last() is Text)
+    }
+    /// in the middle of a skip: the last held event may be a Text, then the next event to be delivered is not one
+    pub closed spec fn mid(&self) -> bool {
+        &&& self.rinv() && self.winv0()
+        &&& self.write@.len() > 0 && self.write@.last() is Text ==> self.after_text()
+    }
+    pub closed spec fn head(&self) -> Option<DeEvent<'de>> { if self.read@.len() > 0 { Some(self.read@[0]) } else { None } }
+//@else
     /// a peeked Text came out of the reader: the reader's look-ahead does not continue it
     pub closed spec fn inv(&self) -> bool {
         &&& self.reader.wf()
         &&& self.peek matches Some(ev) ==> de_wf(ev)
         &&& self.peek matches Some(DeEvent::Text(_)) ==> self.reader.text_done()
     }
-    /// the event that has been looked at but not consumed (the contracts of the accessors speak about it through this function only,
-    /// so that they are the same for the two builds of the deserializer)
+    // `head()`: the event that has been looked at but not consumed. The contracts of the accessors speak about it through this function
+    // only, so that they are the same for the two builds of the deserializer
     pub closed spec fn head(&self) -> Option<DeEvent<'de>> { self.peek }
+//@endif
     /// the next event is not a Text: what has been looked at is not one, or nothing has and the reader's look-ahead does not
     /// continue a text
     pub closed spec fn after_text(&self) -> bool {
@@ -407,6 +443,295 @@ where
     pub closed spec fn peeked_start(&self) -> bool { self.head() matches Some(DeEvent::Start(_)) }
     /// the next event is a Text without content (an empty CDATA section)
     pub closed spec fn next_is_empty_text(&self) -> bool { self.head() matches Some(DeEvent::Text(t)) && t.text@.len() == 0 }
+//@if overlapped-lists
+//@extract de::Deserializer::new | src/de/mod.rs :: impl<'de, R, E> Deserializer<'de, R, E> where R: XmlRead<'de>, E: EntityResolver, :: fn new | serves=C07 features=serialize,overlapped-lists
+    /// Create an XML deserializer from one of the possible quick_xml input sources.
+    ///
+    /// Typically it is more convenient to use one of these methods instead:
+    ///
+    ///  - [`Deserializer::from_str`]
+    ///  - [`Deserializer::from_reader`]
+    fn new(reader: R, entity_resolver: E) -> (r: Self)
+        ensures r.inv()
+    {
+        Self {
+            reader: XmlReader::new(reader, entity_resolver),
+
+            read: VecDeque::new(),
+            write: VecDeque::new(),
+            limit: None,
+
+            key_buf: String::new(),
+        }
+    }
+//@end
+//@extract de::Deserializer::peek | src/de/mod.rs :: impl<'de, R, E> Deserializer<'de, R, E> where R: XmlRead<'de>, E: EntityResolver, :: fn peek | serves=C07 features=serialize,overlapped-lists
+    fn peek(&mut self) -> (r: Result<&DeEvent<'de>, DeError>)
+        requires old(self).rinv()
+        ensures final(self).rinv(), final(self).write@ == old(self).write@, final(self).limit == old(self).limit,
+            old(self).inv() ==> final(self).inv(),
+            r matches Ok(e) ==> final(self).head() == Some(*e) && de_wf(*e),
+            // peeking twice is peeking once
+            old(self).head() is Some ==> r is Ok && *final(self) == *old(self),
+    {
+        if self.read.is_empty() {
+            self.read.push_front(self.reader.next()?);
+        }
+        if let Some(event) = self.read.front() {
+            return Ok(event);
+        }
+        // SAFETY: `self.read` was filled in the code above.
+        // NOTE: Can be replaced with `unsafe { std::hint::unreachable_unchecked() }`
+        // if unsafe code will be allowed
+        unreachable!()
+    }
+//@end
+//@extract de::Deserializer::next | src/de/mod.rs :: impl<'de, R, E> Deserializer<'de, R, E> where R: XmlRead<'de>, E: EntityResolver, :: fn next | serves=C07 features=serialize,overlapped-lists
+    fn next(&mut self) -> (r: Result<DeEvent<'de>, DeError>)
+        requires old(self).rinv()
+        ensures final(self).rinv(), final(self).write@ == old(self).write@, final(self).limit == old(self).limit,
+            old(self).inv() ==> final(self).inv(),
+            r matches Ok(ev) ==> de_wf(ev),
+            old(self).head() matches Some(ev) ==> r == Result::<DeEvent<'de>, DeError>::Ok(ev) && final(self).reader == old(self).reader,
+            // C07 ("two consequent Text events would be merged into one"), now over replayed events too
+            r matches Ok(DeEvent::Text(_)) ==> final(self).after_text(),
+            old(self).after_text() ==> !(r matches Ok(DeEvent::Text(_))),
+    {
+        // Replay skipped or peeked events
+        if let Some(event) = self.read.pop_front() {
+            proof {
+                assert(self.read@ =~= old(self).read@.subrange(1, old(self).read@.len() as int));
+                assert forall|i: int| 0 <= i < self.read@.len() implies de_wf(#[trigger] self.read@[i]) by { assert(self.read@[i] == old(self).read@[i + 1]); }
+                assert forall|i: int| #![trigger self.read@[i]] 0 <= i && i + 1 < self.read@.len() implies !(self.read@[i] is Text && self.read@[i + 1] is Text) by {
+                    assert(self.read@[i] == old(self).read@[i + 1] && self.read@[i + 1] == old(self).read@[i + 2]);
+                }
+                if self.read@.len() > 0 { assert(self.read@.last() == old(self).read@.last()); assert(self.read@[0] == old(self).read@[1]); }
+            }
+            return Ok(event);
+        }
+        self.reader.next()
+    }
+//@end
+//@extract de::Deserializer::last_peeked | src/de/mod.rs :: impl<'de, R, E> Deserializer<'de, R, E> where R: XmlRead<'de>, E: EntityResolver, :: fn last_peeked | serves=C07 features=serialize,overlapped-lists
+    fn last_peeked(&self) -> (r: &DeEvent<'de>)
+        // `peek()` was called before: the queue is not empty
+        requires self.head() is Some
+        ensures self.head() == Some(*r)
+    {
+        {
+            self.read
+                .front()
+                .expect("`Deserializer::peek()` should be called")
+        }
+    }
+//@end
+//@extract de::Deserializer::skip_checkpoint | src/de/mod.rs :: impl<'de, R, E> Deserializer<'de, R, E> where R: XmlRead<'de>, E: EntityResolver, :: fn skip_checkpoint | serves=C07 features=serialize,overlapped-lists
+    fn skip_checkpoint(&self) -> (r: usize)
+        ensures r == self.write@.len()
+    {
+        self.write.len()
+    }
+//@end
+//@extract de::Deserializer::skip_event | src/de/mod.rs :: impl<'de, R, E> Deserializer<'de, R, E> where R: XmlRead<'de>, E: EntityResolver, :: fn skip_event | serves=C07 features=serialize,overlapped-lists
+    fn skip_event(&mut self, event: DeEvent<'de>) -> (r: Result<(), DeError>)
+        requires old(self).rinv(), old(self).winv0(), de_wf(event),
+            // the event comes from the head of the stream: it does not follow a Text as a Text, and is not followed by one
+            old(self).write@.len() > 0 && old(self).write@.last() is Text ==> !(event is Text),
+            event is Text ==> old(self).after_text(),
+        ensures final(self).read@ == old(self).read@, final(self).reader == old(self).reader, final(self).limit == old(self).limit,
+            match r {
+                Ok(_) => final(self).write@ == old(self).write@.push(event) && final(self).mid(),
+                Err(_) => final(self).write@ == old(self).write@,
+            }
+    {
+        if let Some(max) = self.limit {
+            if self.write.len() >= max.get() {
+                return Err(DeError::TooManyEvents(max));
+            }
+        }
+        self.write.push_back(event);
+        proof {
+            let w = self.write@; let w0 = old(self).write@;
+            assert forall|i: int| 0 <= i < w.len() implies de_wf(#[trigger] w[i]) by { if i < w0.len() { assert(w[i] == w0[i]); } }
+            assert forall|i: int| #![trigger w[i]] 0 <= i && i + 1 < w.len() implies !(w[i] is Text && w[i + 1] is Text) by {
+                if i + 1 < w0.len() { assert(w[i] == w0[i] && w[i + 1] == w0[i + 1]); } else { assert(w[i] == w0.last()); }
+            }
+            assert(w.last() == event);
+            assert(self.head() == old(self).head());
+        }
+        Ok(())
+    }
+//@end
+//@extract de::Deserializer::skip | src/de/mod.rs :: impl<'de, R, E> Deserializer<'de, R, E> where R: XmlRead<'de>, E: EntityResolver, :: fn skip | serves=C07 features=serialize,overlapped-lists
+    #[verifier::exec_allows_no_decreases_clause]
+    #[verifier::loop_isolation(false)]
+    fn skip(&mut self) -> (r: Result<(), DeError>)
+        // called when the next event is a Start: the held events then end with the End (or Eof) of the skipped element
+        requires old(self).inv(), old(self).peeked_start()
+        ensures final(self).limit == old(self).limit,
+            // C07: skipping keeps the invariant; what was held before stays where it is (checkpoints stay valid)
+            r is Ok ==> final(self).inv() && final(self).write@.len() >= old(self).write@.len()
+                && final(self).write@.subrange(0, old(self).write@.len() as int) == old(self).write@,
+    {
+        let ghost w0 = self.write@;
+        let event = self.next()?;
+        self.skip_event(event)?;
+        proof { assert(self.write@.subrange(0, w0.len() as int) =~= w0); }
+        match self.write.back() {
+            // Skip all subtree, if we skip a start event
+            Some(DeEvent::Start(e)) => {
+                let end = e.name().as_ref().to_owned();
+                let mut depth = 0;
+                loop
+                    invariant self.mid(), self.limit == old(self).limit, depth >= 0,
+                        self.write@.len() >= w0.len(), self.write@.subrange(0, w0.len() as int) == w0,
+                {
+                    // A-depth (stated assumption): fewer than 2^31 - 1 nested same-name elements
+                    assume(depth < 0x7fff_ffff);
+                    let ghost w1 = self.write@;
+                    let event = self.next()?;
+                    match event {
+                        DeEvent::Start(ref e) if e.name().as_ref() == end => {
+                            self.skip_event(event)?;
+                            proof { assert(self.write@.subrange(0, w0.len() as int) =~= w1.subrange(0, w0.len() as int)); }
+                            depth += 1;
+                        }
+                        DeEvent::End(ref e) if e.name().as_ref() == end => {
+                            self.skip_event(event)?;
+                            proof { assert(self.write@.subrange(0, w0.len() as int) =~= w1.subrange(0, w0.len() as int)); }
+                            if depth == 0 {
+                                break;
+                            }
+                            depth -= 1;
+                        }
+                        DeEvent::Eof => {
+                            self.skip_event(event)?;
+                            proof { assert(self.write@.subrange(0, w0.len() as int) =~= w1.subrange(0, w0.len() as int)); }
+                            break;
+                        }
+                        _ => { self.skip_event(event)?; proof { assert(self.write@.subrange(0, w0.len() as int) =~= w1.subrange(0, w0.len() as int)); } },
+                    }
+                }
+            }
+            _ => (),
+        }
+        Ok(())
+    }
+//@end
+//@extract de::Deserializer::start_replay | src/de/mod.rs :: impl<'de, R, E> Deserializer<'de, R, E> where R: XmlRead<'de>, E: EntityResolver, :: fn start_replay | serves=C07 features=serialize,overlapped-lists
+    fn start_replay(&mut self, checkpoint: usize)
+        // the checkpoint was taken between two skips: what lies in front of it does not end with a Text
+        requires old(self).inv(), checkpoint <= old(self).write@.len(),
+            checkpoint > 0 ==> !(old(self).write@[checkpoint - 1] is Text),
+        ensures
+            // C07: replaying keeps the invariant -- no two Texts become adjacent where the replayed events meet the pending ones
+            final(self).inv(), final(self).limit == old(self).limit,
+            final(self).read@ == old(self).write@.subrange(checkpoint as int, old(self).write@.len() as int) + old(self).read@,
+            final(self).write@ == old(self).write@.subrange(0, checkpoint as int),
+    {
+        if checkpoint == 0 {
+            self.write.append(&mut self.read);
+            std::mem::swap(&mut self.read, &mut self.write);
+        } else {
+            let mut read = self.write.split_off(checkpoint);
+            read.append(&mut self.read);
+            self.read = read;
+        }
+        proof {
+            let w0 = old(self).write@; let r0 = old(self).read@; let cp = checkpoint as int;
+            let tail = w0.subrange(cp, w0.len() as int);
+            assert(self.read@ =~= tail + r0);
+            assert(self.write@ =~= w0.subrange(0, cp));
+            let rd = self.read@;
+            assert forall|i: int| 0 <= i < rd.len() implies de_wf(#[trigger] rd[i]) by {
+                if i < tail.len() { assert(rd[i] == w0[cp + i]); } else { assert(rd[i] == r0[i - tail.len()]); }
+            }
+            assert forall|i: int| #![trigger rd[i]] 0 <= i && i + 1 < rd.len() implies !(rd[i] is Text && rd[i + 1] is Text) by {
+                if i + 1 < tail.len() { assert(rd[i] == w0[cp + i] && rd[i + 1] == w0[cp + i + 1]); }
+                else if i < tail.len() { assert(rd[i] == w0.last()); }
+                else { assert(rd[i] == r0[i - tail.len()] && rd[i + 1] == r0[i + 1 - tail.len()]); }
+            }
+            if rd.len() > 0 && rd.last() is Text {
+                if r0.len() > 0 { assert(rd.last() == r0.last()); } else { assert(rd.last() == w0.last()); }
+            }
+            let wr = self.write@;
+            assert forall|i: int| 0 <= i < wr.len() implies de_wf(#[trigger] wr[i]) by { assert(wr[i] == w0[i]); }
+            assert forall|i: int| #![trigger wr[i]] 0 <= i && i + 1 < wr.len() implies !(wr[i] is Text && wr[i + 1] is Text) by {
+                assert(wr[i] == w0[i] && wr[i + 1] == w0[i + 1]);
+            }
+            if wr.len() > 0 { assert(wr.last() == w0[cp - 1]); }
+        }
+    }
+//@end
+//@extract de::Deserializer::read_to_end | src/de/mod.rs :: impl<'de, R, E> Deserializer<'de, R, E> where R: XmlRead<'de>, E: EntityResolver, :: fn read_to_end | serves=C07 features=serialize,overlapped-lists
+    #[verifier::exec_allows_no_decreases_clause]
+    #[verifier::loop_isolation(false)]
+    fn read_to_end(&mut self, name: QName) -> (r: Result<(), DeError>)
+        requires old(self).inv()
+        ensures final(self).inv(), final(self).write@ == old(self).write@, final(self).limit == old(self).limit
+    {
+        let mut depth = 0;
+        loop
+            invariant self.inv(), self.write@ == old(self).write@, self.limit == old(self).limit, depth >= 0,
+        {
+            // A-depth (stated assumption): fewer than 2^31 - 1 nested same-name elements
+            assume(depth < 0x7fff_ffff);
+            let ghost r1 = self.read@;
+            proof {
+                if r1.len() > 0 {
+                    let t = r1.subrange(1, r1.len() as int);
+                    assert forall|i: int| 0 <= i < t.len() implies de_wf(#[trigger] t[i]) by { assert(t[i] == r1[i + 1]); }
+                    assert forall|i: int| #![trigger t[i]] 0 <= i && i + 1 < t.len() implies !(t[i] is Text && t[i + 1] is Text) by {
+                        assert(t[i] == r1[i + 1] && t[i + 1] == r1[i + 2]);
+                    }
+                    if t.len() > 0 { assert(t.last() == r1.last()); }
+                    assert(de_wf(r1[0]));
+                }
+            }
+            match self.read.pop_front() {
+                Some(DeEvent::Start(e)) if e.name() == name => {
+                    depth += 1;
+                }
+                Some(DeEvent::End(e)) if e.name() == name => {
+                    if depth == 0 {
+                        break;
+                    }
+                    depth -= 1;
+                }
+
+                // Drop all other skipped events
+                Some(_) => continue,
+
+                // If we do not have skipped events, use effective reading that will
+                // not allocate memory for events
+                None => {
+                    // We should close all opened tags, because we could buffer
+                    // Start events, but not the corresponding End events. So we
+                    // keep reading events until we exit all nested tags.
+                    // `read_to_end()` will return an error if an Eof was encountered
+                    // preliminary (in case of malformed XML).
+                    //
+                    // <tag><tag></tag></tag>
+                    // ^^^^^^^^^^             - buffered in `self.read`, when `self.read_to_end()` is called, depth = 2
+                    //           ^^^^^^       - read by the first call of `self.reader.read_to_end()`
+                    //                 ^^^^^^ - read by the second call of `self.reader.read_to_end()`
+                    loop
+                        invariant self.inv(), self.read@.len() == 0, self.write@ == old(self).write@, self.limit == old(self).limit, depth >= 0,
+                    {
+                        self.reader.read_to_end(name)?;
+                        if depth == 0 {
+                            break;
+                        }
+                        depth -= 1;
+                    }
+                    break;
+                }
+            }
+        }
+        Ok(())
+    }
+//@end
+//@else
 //@extract de::Deserializer::new | src/de/mod.rs :: impl<'de, R, E> Deserializer<'de, R, E> where R: XmlRead<'de>, E: EntityResolver, :: fn new | serves=C07 features=serialize
     /// Create an XML deserializer from one of the possible quick_xml input sources.
     ///
@@ -487,6 +812,7 @@ where
         self.reader.read_to_end(name)
     }
 //@end
+//@endif
 //@extract de::Deserializer::skip_next_tree | src/de/mod.rs :: impl<'de, R, E> Deserializer<'de, R, E> where R: XmlRead<'de>, E: EntityResolver, :: fn skip_next_tree | serves=C07 features=serialize
     fn skip_next_tree(&mut self) -> (r: Result<(), DeError>)
         // only called when the next event -- already peeked -- is a Start: the `unreachable!()` is unreachable
@@ -1255,7 +1581,31 @@ where
         &&& self.map.de.inv() && self.map.source is Unknown
         &&& self.map.start.name_len <= self.map.start.buf@.len()
         &&& self.filter matches TagFilter::Include(n) ==> n.name_len <= n.buf@.len()
+        &&& self.cp_ok()
     }
+//@if overlapped-lists
+    /// the checkpoint was taken between two skips and what was held then is still held: replaying from it is allowed.
+    /// (Established where the accessor is built; kept by `skip`, which only appends; nested lists replay from later checkpoints.)
+    pub closed spec fn cp_ok(&self) -> bool {
+        &&& self.checkpoint <= self.map.de.write@.len()
+        &&& self.checkpoint > 0 ==> !(self.map.de.write@[self.checkpoint - 1] is Text)
+    }
+//@extract de::map::MapValueSeqAccess::drop | src/de/map.rs :: impl<'de, 'd, 'm, R, E> Drop for MapValueSeqAccess<'de, 'd, 'm, R, E> where R: XmlRead<'de>, E: EntityResolver, :: fn drop | serves=C07,C20 features=serialize,overlapped-lists
+    fn drop(&mut self)
+        // the compiler calls this when the list accessor goes out of scope (also on error paths, after a skip that failed:
+        // there the invariant is not claimed -- A-serde-err)
+        requires old(self).ok()
+        ensures final(self).map.de.inv(), final(self).map.de.limit == old(self).map.de.limit,
+            // C20: the events skipped since the accessor was built are replayed first, in their order; older held events stay
+            final(self).map.de.read@ == old(self).map.de.write@.subrange(old(self).checkpoint as int, old(self).map.de.write@.len() as int) + old(self).map.de.read@,
+            final(self).map.de.write@ == old(self).map.de.write@.subrange(0, old(self).checkpoint as int),
+    {
+        self.map.de.start_replay(self.checkpoint);
+    }
+//@end
+//@else
+    pub closed spec fn cp_ok(&self) -> bool { true }
+//@endif
 }
 impl<'de, 'd, 'm, R: XmlRead<'de>, E: EntityResolver> SeqModel<'de> for MapValueSeqAccess<'de, 'd, 'm, R, E> {
     closed spec fn seq_ok(&self) -> bool { self.ok() }
